@@ -1,9 +1,23 @@
-from ._tvprops import main_for, replay_for
+"""C04 - feed and end always return.
+
+ per emitted program (csem + z3): termination obligations on the non-consuming moves of feed/end (see vf/csem/tv.py verify_termination);
+ compile-time rejection (run-time contract on DfaCompileCtx.compile, bounded-exact): normal return => on no symbol is there a cycle of
+   fall-through / condition / break moves in the final machine (cycles that need a full buffer are the recorded finding F-04)."""
+from .. import common
+from ..common import Finding
+from . import _tvprops as P
+from . import _tvcommon as T
+from . import _rtcprops as R
 
 
 def main():
-    return main_for("C04")
+    spec = P.SPECS["C04"]
+    rep, recs = T.run("C04", spec["families"], spec["level"], spec["text"], optsets=P.optsets_for("C04"), programs=P.programs_for("C04"), fns=P.CODEGEN_FNS)
+    sel = lambda c: c.startswith("DfaCompileCtx.compile/C04")
+    rep2, outs = R.run_contracts("C04", sel, ["DfaCompileCtx.compile/C04"], ["fallthrough"], "all", "", ["DfaCompileCtx._verify_fallthrough_loop", "LoopNode.convert", "ForeachNode.convert"], rep=rep)
+    rep.coverage["bound"] = "per program; bounded over the program sets. Soundness of _verify_fallthrough_loop for all programs is not proved."
+    return rep.finish(spec["text"] + " Compile-time rejection: contract on DfaCompileCtx.compile evaluated on every compilation of the rtc program set (exact per symbol class).", checker_cmd="./check C04")
 
 
 def replay(path):
-    return replay_for("C04", path)
+    return P.replay_for("C04", path)
